@@ -33,7 +33,7 @@ theorem remove_refines_shape {h : Tree} {t : T} {node : Nat} (hr : Represents h 
       rw [T.io_idxs] at this
       rw [← this] at hmem; simp at hmem
     | cons F up =>
-      obtain ⟨t', a, b, c, d, e, f⟩ := replace_path rfl hr hbst i2 eio hfq
+      obtain ⟨t', a, b, c, d, e, f, _⟩ := replace_path rfl hr hbst i2 eio hfq
       exact ⟨t', a, b, c, d, e, by rw [f]; exact i2.inv.size1⟩
 
 /-- the shape part of `Ins.RemoveStep` (everything but `t'.RB`) -/
